@@ -57,9 +57,14 @@ def main():
     print("suite:", meta["suite_with_change"], "| demo with:", rc_with, "| demo without:", rc_without, "| confirmed:", ok)
     # (c) our checks against the changed tree
     results = {}
+    # SEED_VERIF_COPY=1: run the checks in a private copy of /verif (as harness/alltree.sh does), so that work in /verif/lean can go on meanwhile
+    rundir = VERIF
+    if os.environ.get("SEED_VERIF_COPY"):
+        rundir = f"/var/tmp/vcopy-seed-{os.getpid()}"
+        sh(f"rm -rf {rundir}; mkdir -p {rundir}; rsync -a --exclude replays --exclude .git {VERIF}/ {rundir}/")
     for p in props:
         t = time.time()
-        rc, o = sh(f"./check {p} quick", VERIF, {"VERIF_REPO": wt}, timeout=3000)
+        rc, o = sh(f"./check {p} quick", rundir, {"VERIF_REPO": wt}, timeout=3000)
         lines = [l for l in o.splitlines() if l.startswith(("VIOLATION", "KNOWN-FINDING", "INFRA", "TIMEOUT"))]
         replay = None
         for l in lines:
@@ -73,6 +78,8 @@ def main():
                     pass
         results[p] = dict(exit=rc, seconds=round(time.time() - t, 1), lines=[l[:200] for l in lines if not l.startswith("KNOWN")], replay=replay)
         print(p, "->", results[p])
+    if rundir != VERIF:
+        shutil.rmtree(rundir, ignore_errors=True)
     meta["check_results"] = results
     meta["caught_by"] = [p for p, r in results.items() if r["exit"] == 1]
     d = os.path.join(VERIF, "seeded", sid)
